@@ -9,3 +9,9 @@ import contracts.c10_framing as _F
 P = "C13"
 unit(P, target=_F.SW + "OFConnection.read / _error_handler", name="undecodable_requests_of_any_claimed_length_never_make_the_read_loop_fail",
      timeout_s=600)(_F.switch_read_arbitrary_bytes)
+
+
+# a flow-mod that names a buffer hands ITSELF to the code that applies its actions to the buffered packet, so that a bad-action
+# error raised there is an answer to this request (its xid, its bytes): the C18 unit on _rx_flow_mod, shared (C13_11)
+import contracts.c18_buffers as _B18
+unit(P, target=_B18.SW + "SoftwareSwitchBase._rx_flow_mod", name="errors_from_a_released_buffer_can_name_the_flow_mod")(_B18.flow_mod_releases_its_buffer)
